@@ -2,9 +2,9 @@
 # keep_seed.sh <prop> <n> <slug> "<needs>" "<caught-by>"
 P=$1; N=$2; SLUG=$3; NEEDS=$4; BY=$5
 D=/verif/seeded/$P-$SLUG; mkdir -p $D
-cp /tmp/seed/$P/SEED/$N/patch.diff $D/patch.diff
-cp /tmp/seed/$P/SEED/$N/demo.rs $D/demo.rs
-cp /tmp/seed/$P/SEED/$N/notes.md $D/notes.md 2>/dev/null
+cp /tmp/seed/$P/${SEEDDIR:-SEED}/$N/patch.diff $D/patch.diff
+cp /tmp/seed/$P/${SEEDDIR:-SEED}/$N/demo.rs $D/demo.rs
+cp /tmp/seed/$P/${SEEDDIR:-SEED}/$N/notes.md $D/notes.md 2>/dev/null
 python3 - "$P" "$SLUG" "$NEEDS" "$BY" "$D" <<'PY'
 import json,sys
 p,slug,needs,by,d=sys.argv[1:]
@@ -14,5 +14,5 @@ except Exception: pass
 meta={'id':f'{p}-{slug}','property':p,'breaks':open(f'{d}/notes.md').read().strip().split('\n')[0][:300] if True else '','needs_to_manifest':needs,'author':'independent sub-agent given only the property text and a scratch worktree','confirmed':{'suite_with_patch':'229 passed, 0 failed (cargo test --workspace --no-fail-fast --offline in a scratch worktree)','demo_with_patch':'fails','demo_without_patch':'passes','how':'tools/try_seed.sh'},'detected_by':by,'apply':f'git -C /repo apply /verif/seeded/{p}-{slug}/patch.diff ; ./check {p} quick ; git -C /repo checkout -- .'}
 json.dump(meta,open(f'{d}/meta.json','w'),indent=1)
 PY
-cp /tmp/seed/$P/SEED/$N/verify.log $D/verify.log 2>/dev/null
+cp /tmp/seed/$P/${SEEDDIR:-SEED}/$N/verify.log $D/verify.log 2>/dev/null
 echo kept $D
